@@ -84,6 +84,8 @@ def _record_one(args):
         return seed, None, ('escape', str(ex))
     except ikereplay.Mismatch as mm:
         return seed, None, (mm.component, mm.msg)
+    except Exception as ex:        # noqa: B902 - (a StopIteration leaving a pool worker would silently turn the record into None)
+        return seed, None, ('harness', f'{type(ex).__name__}: {ex}')
 
 
 def _describe_event(ev):
@@ -109,6 +111,8 @@ def run_traces(verdict, n, depth):
     traces, tseeds = [], []
     for seed, tr, err in recs:
         if tr is None:
+            if err[0] == 'harness':
+                raise common.MachineryError(f'recording a random schedule (seed {seed}) failed in the harness: {err[1]}')
             own = OWNER.get(err[0], 'C09')
             if own == prop:
                 verdict.violation(f'recording a random schedule (seed {seed}): {err[0]}: {err[1]}', {'seed': seed}, signature={'component': 'trace:' + err[0]},
